@@ -23,4 +23,14 @@ except engine.BuildError as e:
         sys.exit(1)
 PY
 done
+python3 - <<'PY'
+import sys, os
+sys.path.insert(0, os.path.join(os.getcwd(), 'rules'))
+import engine
+try:
+    r, info = engine.run_witnesses()
+    print('setup: witness crate ready (%d witnesses, %s)' % (len(r), info))
+except Exception as e:
+    print('setup: witness crate FAILED (thorough tier only): %s' % str(e)[:500])
+PY
 echo "setup: done"
